@@ -433,8 +433,16 @@ class C13(Base):
             # blocks long enough for the binomial part to matter
             cfg["p"]["period"] = rng.randint(3, max(3, min(cfg["N"] + 2, 40)))
             cfg["p"]["b"] = rng.choice((0, 1, 1, 2, 2, 3, 4, 5))
-        return Plan([(cfg, rng.choice((1, 1, 2, 3)),
-                      "every" if rng.random() < 0.7 else "first")])
+        style = "every" if rng.random() < 0.7 else "first"
+        if rng.random() < 0.3:
+            style += "+for"
+        faults = {}
+        if rng.random() < 0.15:
+            # late finalisation: the periodic forward goes on until an
+            # injected finalize(k) is accepted
+            style = "manual"
+            faults = {"fin": 0.3}
+        return Plan([(cfg, rng.choice((1, 1, 2, 3)), style)], faults=faults)
 
     def check(self, w):
         for s in w.all_slots():
@@ -443,8 +451,17 @@ class C13(Base):
             p = s.cfg["p"]
             per, b, bst, N = p["period"], p["b"], p["storage"], s.N
             nblocks = -(-N // per)
+            nfwd = next((i for i, t in enumerate(s.stream)
+                         if t[0] != "Forward"), len(s.stream))
+            if s.style == "manual":
+                w.probe("c13_late_finalised")
+                # however many periodic Forwards were requested before the
+                # accepted finalize, they must be the periodic ones
+                nfwd = max(nfwd, nblocks)
+            else:
+                nfwd = nblocks
             exp_fwd = [("Forward", k * per, (k + 1) * per, True, False,
-                        "DISK") for k in range(nblocks)] + [("EndForward",)]
+                        "DISK") for k in range(nfwd)] + [("EndForward",)]
             got_fwd = s.stream[:len(exp_fwd)]
             if got_fwd != exp_fwd:
                 j = next((i for i, (x, y) in enumerate(zip(got_fwd, exp_fwd))
